@@ -162,6 +162,12 @@ class MarginLoans(base.LendingStrategy):
     def _check_margin_level(
             self, updated_balances: ValueMapDict, updated_holds: ValueMapDict, updated_borrowed: ValueMapDict
     ):
+        assert self._exchange_ctx, "Not yet connected with the exchange"
+        acc_balances = self._exchange_ctx.account_balances
+        # Updates that only affect holds, like releasing the funds reserved for an order, don't change the margin level.
+        if updated_balances == acc_balances.balances and updated_borrowed == acc_balances.borrowed:
+            return
+
         margin_level = self._calculate_margin_level(updated_balances, updated_holds, updated_borrowed)
         if margin_level > Decimal(0) and margin_level < Decimal(100):
             raise errors.NotEnoughBalance(f"Margin level too low {margin_level}")
